@@ -267,4 +267,8 @@ def timestamp_layout(ctx, repo):
     enc = repo.func("Codec.encode")
     ops = [unparse(c.args[0].right.elts[1]) for c in walk_no_nested(enc) if isinstance(c, ast.Call) and isinstance(c.func, ast.Attribute) and c.func.attr == "append"
            and c.args and isinstance(c.args[0], ast.BinOp) and isinstance(c.args[0].right, ast.Tuple) and unparse(c.args[0].right.elts[0]) == "FTag.SendingTime"]
+    # (an operand first put into a local that is assigned once is that value)
+    from sa.guards import single_defs as _single_defs
+    _sd = _single_defs(enc)
+    ops = [unparse(_sd[o]) if o in _sd else o for o in ops]
     ctx.instance(rule, "Codec.encode[52 := current_datetime()]", ops == ["self.current_datetime()"], f"SendingTime(52) is emitted from {ops}", loc(enc))
